@@ -209,9 +209,7 @@ func (s *Stream) WriteRtpPacket(packet *rtp.Packet) error {
 
 	atomic.AddUint64(&s.size, uint64(packet.Size()))
 
-	keyframe := s.cache.CachePack(packet)
-	verifhook.Point("stream.write.cached", 0)
-	s.consumptions.SendToAll(packet, keyframe)
+	s.cacheAndSend(&s.consumptions, s.cache, packet)
 
 	s.rtpDemuxer.WriteRtpPacket(packet)
 	return nil
@@ -237,10 +235,19 @@ func (s *Stream) WriteFlvTag(tag *flv.Tag) error {
 		return statusErrors[status]
 	}
 
-	keyframe := s.flvCache.CachePack(tag)
-	verifhook.Point("stream.writeflv.cached", 0)
-	s.flvConsumptions.SendToAll(tag, keyframe)
+	s.cacheAndSend(&s.flvConsumptions, s.flvCache, tag)
 	return nil
+}
+
+// cacheAndSend caches the pack and broadcasts it to the attached consumers as one
+// step with respect to startConsume (cache snapshot + registration).
+func (s *Stream) cacheAndSend(cs *consumptions, cache packCache, pack Pack) {
+	cs.l.Lock()
+	defer cs.l.Unlock()
+
+	keyframe := cache.CachePack(pack)
+	verifhook.Point("stream.write.cached", 0)
+	cs.SendToAll(pack, keyframe)
 }
 
 // Multicastable 返回组播支持能力，不支持返回nil
@@ -282,11 +289,13 @@ func (s *Stream) startConsume(consumer Consumer, packetType PacketType, extra st
 		cache = s.flvCache
 	}
 
+	cs.l.Lock()
 	if useGopCache {
 		c.sendGop(cache) // 新消费者，先发送gop缓存
 	}
 	verifhook.Point("stream.join.snapshotted", uint32(c.cid))
 	cs.Add(c)
+	cs.l.Unlock()
 	verifhook.Point("stream.join.added", uint32(c.cid))
 
 	go c.consume()
